@@ -214,6 +214,9 @@ func (ex *Explorer) runPath(sol *Solver, prefix []int) (res *PathResult) {
 		switch x := r.(type) {
 		case nil:
 			ps.outcome = "return"
+			if in.mainBlocked != "" {
+				ps.outcome, ps.detail = "blocked", in.mainBlocked
+			}
 		case pathEnd:
 			ps.outcome = x.reason
 			ps.detail = x.detail
@@ -276,8 +279,8 @@ func (ex *Explorer) runPath(sol *Solver, prefix []int) (res *PathResult) {
 	in.runq = []int{0}
 	in.startThread(main, func() { in.callFunction(nil, ex.fn, nil, nil) })
 	in.schedule()
-	if main.state != tsDone {
-		in.end("deadlock", "harness body blocked: "+main.reason)
+	if in.mainBlocked != "" {
+		ps.outcome, ps.detail = "blocked", in.mainBlocked
 	}
 	return res
 }
